@@ -224,7 +224,15 @@ def check_property(prop, tier, seed):
     leaf = run_leaves(cfg, tier)
     # thorough: bounded witness sweep of the property's families on the real crate (honest runs must be
     # accepted, single edits refused, nothing panics) - a cross-check of the spec functions against the code
-    sweep = run_sweep(prop, cfg, tier) if tier == "thorough" else {"families": [], "probes": 0, "bad": []}
+    sweep = run_sweep(prop, cfg, tier) if (tier == "thorough" or cfg.get("sweep_quick")) else {"families": [], "probes": 0, "bad": [], "known": []}
+    if sweep.get("error"):
+        undecided.append(("witness-sweep", Undecided("tool-error", "witness sweep failed: " + sweep["error"][:600])))
+    seen_k = set()
+    for k, fi in sweep["known"]:
+        if id(k) not in seen_k:
+            seen_k.add(id(k))
+            n = sum(1 for k2, _ in sweep["known"] if k2 is k)
+            kf_lines.append((k, {"label": k.get("label") or "witness sweep", "fn": k.get("fn") or fi["call"], "site": f"{n} probe(s) on the real crate, e.g. {fi['id']} -> {fi['outcome'][:40]}"}))
     # ---- evidence
     nfun = sum(len(r["functions"]) for r in results.values() if not isinstance(r, Undecided))
     verified = sum(r["verified"] for r in results.values() if not isinstance(r, Undecided))
@@ -291,7 +299,7 @@ def check_property(prop, tier, seed):
             "non_deciding_failures_seen": [{"label": f["label"], "fn": f.get("fn"), "site": f.get("site")} for f in foreign][:50],
             "known_findings_printed": [k.get("what") for k, _ in kf_lines],
             "vacuity": vac_notes,
-            "bounded_witness_sweep": {"families": sweep["families"], "probes_run_on_real_crate": sweep["probes"], "contradictions": len(sweep["bad"])},
+            "bounded_witness_sweep": {"families": sweep["families"], "probes_run_on_real_crate": sweep["probes"], "contradictions": len(sweep["bad"]), "contradictions_listed_as_known_findings": len(sweep["known"])},
             "samples": sample_obligations(results, pats),
             "repo_head": git_head(REPO),
         },
@@ -404,18 +412,30 @@ def run_twins(units, seed):
 
 
 def run_sweep(prop, cfg, tier):
+    """Bounded witness sweep of the property's families on the real crate.  Failing probes that a recorded finding lists
+    (known_findings.json: findings[].probe, a regex over probe ids) are reported as known, the rest as violations."""
     fams = cfg.get("families", [])
-    res = {"families": fams, "probes": 0, "bad": []}
+    res = {"families": fams, "probes": 0, "bad": [], "known": []}
     if not fams:
         return res
     drv = os.path.join(VERIF, "replay", "run_replay.py")
     try:
-        p = subprocess.run([sys.executable, drv, "--sweep", ",".join(fams), "--tier", tier], capture_output=True, text=True, timeout=3000)
+        p = subprocess.run([sys.executable, drv, "--sweep", ",".join(fams), "--tier", tier], capture_output=True, text=True, timeout=6000)
         out = json.loads(p.stdout)
-        res["probes"] = out.get("tried", 0)
-        res["bad"] = out.get("failing_inputs", [])
     except Exception as e:
         res["error"] = repr(e)
+        return res
+    if out.get("error"):
+        res["error"] = out["error"]
+        return res
+    res["probes"] = out.get("tried", 0)
+    kfs = [k for k in load_known().get("findings", []) if k.get("property") == prop and k.get("probe")]
+    for fi in out.get("failing_inputs", []):
+        hit = next((k for k in kfs if re.search(k["probe"], fi["id"])), None)
+        if hit:
+            res["known"].append((hit, fi))
+        else:
+            res["bad"].append(fi)
     return res
 
 
